@@ -12,7 +12,7 @@ EXPLANATION = (
     'each name); R14.b nothing else constructs an HttpRequest from a Request and both APIs call that one conversion; R14.c each '
     'endpoint emits exactly one effect, outside any loop; R14.d every builder method of the command API and of the capability '
     'API resolves to the same Request/http_types callees; R14.e every mutating method of crux_http::Request forwards to exactly the same-named '
-    'http_types method and changes nothing else. R14.h every builder setter of both APIs changes the request through its mutator on every non-error path, with a value computed from its argument (an argument is never skipped because it is empty or equal to a default). R14.i crux_http never chooses a media type itself: no Mime::sniff / from_extension / Body::set_mime anywhere in the crate (positive control in the fixtures), set_content_type only from the content_type(..) setters. URL, query and body encoding inside url/http_types is trusted.')
+    'http_types method and changes nothing else. R14.h every builder setter of both APIs changes the request through its mutator on every non-error path, with a value computed from its argument (an argument is never skipped because it is empty or equal to a default). R14.j the argument of each body_json / body_form / body_string / body_bytes setter (Request and both builders) is consumed by the tabled http_types encoder of that format and by nothing else. R14.i crux_http never chooses a media type itself: no Mime::sniff / from_extension / Body::set_mime anywhere in the crate (positive control in the fixtures), set_content_type only from the content_type(..) setters. URL, query and body encoding inside url/http_types is trusted.')
 
 HT = 'http_types_red_badger_temporary_fork'
 SIBLINGS = ['header', 'content_type', 'body', 'body_json', 'body_string', 'body_bytes', 'body_form', 'query', 'middleware']
@@ -23,6 +23,7 @@ def check(ctx, rep):
     rep.rule('R14.b', 'one conversion: nothing else builds protocol::HttpRequest from a Request; both APIs call it', floor=2)
     rep.rule('R14.c', 'each endpoint emits exactly one effect, outside any loop', floor=2)
     rep.rule('R14.d', 'sibling builder methods of the two APIs resolve to the same callees', floor=9)
+    rep.rule('R14.j', 'each body_* setter hands its argument to the http_types encoder of that format and to nothing else (one encoding step, no intermediate form)', floor=12)
     rep.rule('R14.h', 'every builder setter puts its argument on the request on every path on which it hands the builder back', floor=18)
     cfgs = ['default'] + (['allfeat'] if ctx.has('allfeat') else [])
     for cfg in cfgs:
@@ -36,6 +37,7 @@ def check(ctx, rep):
         check_siblings(rep, http, cfg)
         check_forwarders(rep, http, cfg)
         check_setters_apply(rep, http, cfg)
+        check_body_encoders(rep, http, cfg)
     # R14.f: "exactly one request effect" also rests on the command primitives underneath: a request / notification made through the command API
     # puts its effect on the effect channel exactly once (shared with C01 R01.f)
     from rules.props import prims as _prims
@@ -452,6 +454,49 @@ def check_setters_apply(rep, http, cfg):
                        '%s: the setter can hand the builder back without having put its argument on the request (%s on every successful path: %s; '
                        'written value computed from the argument: %s) — e.g. an empty body that no longer replaces an earlier one'
                        % (f.path, '/'.join(muts), always, fed), site=key + '@' + cfg)
+
+
+# the one encoder of each body format; the argument goes there (through borrows / as_ref) and nowhere else — a detour through another
+# representation (serde_json::Value, a String re-parse) changes the bytes the shell gets for some inputs (key order, float widening,
+# 128-bit numbers) while every ordinary body still looks the same
+BODY_ENCODERS = {
+    'body_json': [HT + '::body::Body::from_json'],
+    'body_form': [HT + '::body::Body::from_form'],
+    'body_string': [HT + '::body::Body::from_string', '<' + HT + '::body::Body as core::convert::From<alloc::string::String>>::from',
+                    '<' + HT + '::body::Body as core::convert::From::from>', '<' + HT + '::body::Body as core::convert::Into::into>'],
+    'body_bytes': [HT + '::body::Body::from_bytes', '<' + HT + '::body::Body as core::convert::From<&[u8]>>::from',
+                   '<' + HT + '::body::Body as core::convert::From::from>', '<' + HT + '::body::Body as core::convert::Into::into>'],
+}
+BODY_ARG_IDENTITY = [('core::convert::AsRef::as_ref', 0), ('core::ops::deref::Deref::deref', 0), ('core::borrow::Borrow::borrow', 0)]
+
+
+def check_body_encoders(rep, http, cfg):
+    """R14.j: over Request and both builders, the argument of body_json / body_form / body_string / body_bytes is consumed by exactly
+    the tabled http_types encoder"""
+    for owner in ('crux_http::request::Request', 'crux_http::request_builder::RequestBuilder', 'crux_http::command::RequestBuilder'):
+        for name, encs in sorted(BODY_ENCODERS.items()):
+            fs = [f for f in http.built if f.name == name and f.kind == 'AssocFn' and not f.j.get('exp') and
+                  (path_matches(f.assoc.get('self_adt'), owner) or f.npath.startswith(owner + '::'))]
+            key = '%s|%s|encoder' % (owner.split('::', 1)[1], name)
+            if len(fs) != 1:
+                rep.bad('R14.j', key + '|missing', 'body setter %s::%s not found (%d)' % (owner, name, len(fs)), site=key + '@' + cfg)
+                continue
+            f = fs[0]
+            sinks = [s for s in flows_to(f, 2, extra_identity=BODY_ARG_IDENTITY) if s[0] == 'callarg']
+            def callee_of(t):
+                c = norm(t.get('callee') or '?')
+                if c in ('core::convert::From::from', 'core::convert::Into::into') and 'l' in (t.get('d') or {}):
+                    # the conversion is named by what it produces
+                    return '<%s as %s>' % (norm(str(f.locals[t['d']['l']])), c)
+                return c
+            callees = sorted(set(callee_of(s[2]) for s in sinks))
+            # handing the argument on to the same-named setter of the wrapped request / builder is that setter's instance
+            good = [c for c in callees if any(path_matches(c, e) or c == norm(e) for e in encs) or
+                    (c.startswith('crux_http::') and last_seg(c) == name and c != f.npath)]
+            other = [c for c in callees if c not in good]
+            rep.expect('R14.j', bool(good) and not other, key, 'argument consumed by %s only' % '/'.join(last_seg(e) for e in encs),
+                       '%s: the argument is %s — the body of this format is encoded by %s, directly from what the app gave'
+                       % (f.path, ('handed to ' + ', '.join(other)) if other else 'never handed to the encoder', ' or '.join(encs)), site=key + '@' + cfg)
 
 
 # methods of http_types::Request that change the request
